@@ -12,7 +12,7 @@ RULE = (
     "cases = system specs: E in 1..3 equations x U in 1..3 unknowns with random key names (equal and different key sets), "
     "ODE / stationary / non-stationary (dim 1 and 2; equations use t and x asymmetrically: d/dx_last of the first unknown, "
     "d/dt (first coordinate) of the last unknown, first and last coordinate), analytic networks sharing flat equation "
-    "parameters, weights scalar / per-key dict / None / omitted per term, per-unknown initial / boundary / normalisation / "
+    "parameters, weights scalar / per-key dict (written in an arbitrary key order) / None / omitted per term, per-unknown initial / boundary / normalisation / "
     "observation specifications (some None), optional per-sample parameter batch. Oracle: dyn = sum_e w_e mean_i sum_c "
     "r_e(t_i,x_i)^2 from numpy closed forms; every other term = sum_u w_u * single-network reference term; total = sum; "
     "1x1 system == plain loss. Non-trivial = weights of the configured terms pairwise distinct, residual means of the "
